@@ -83,6 +83,10 @@ CLAIMED = {
             "frame->segment map; range [0,1]; frame_size<=0 or >window rejected for all symbolic values.",
             "Bounds: vectors n<=3 (levels 0..2) quick / n<=4 (0..3) thorough; _gauc <=3/4 frames; end to end 2 levels x <=2(3) segments, <=4 frames; exact-arithmetic "
             "_round (float truncation gap outside the claim); scipy.sparse dense stand-in.", "5 (C17)"),
+    "C12": ("weighted_accuracy on symbolic comparisons/weights (definition, symbolic rescaling, all-1/all-0) and same-path refinement checks: an annotation "
+            "and its copy with one interval cut at a symbolic interior instant scored by the real chord.evaluate (15 entries), six segment metrics and "
+            "hierarchy.lmeasure; z3 shows equal results on every path.",
+            "Bounds: n<=3/4 weights; <=2+2 chord intervals over a 7-label pool; <=2+2 (3+2) segments at frame 0.5, span<=2 s; hierarchy 2 levels.", "5 (C12)"),
 }
 
 NA_REASON = "check not built yet in this revision (planned; see DESIGN.md section 5)"
